@@ -155,6 +155,36 @@ pub proof fn lemma_step_unit(cs: Seq<Vec<Literal>>, m0: PartialModel, l: Literal
     }
 }
 
+/// every model of the formula agrees with m: everything m assigns is entailed by the formula alone
+pub open spec fn implied_by(cs: Seq<Vec<Literal>>, m: PartialModel) -> bool { forall|a: Asg| #[trigger] cnf_holds(cs, a) ==> agrees(a, m) }
+pub open spec fn unsat(cs: Seq<Vec<Literal>>) -> bool { forall|a: Asg| !#[trigger] cnf_holds(cs, a) }
+pub open spec fn unit_lit_ok(cs: Seq<Vec<Literal>>, l: Literal) -> bool { forall|a: Asg| #[trigger] cnf_holds(cs, a) ==> lit_holds(l, a) }
+pub proof fn lemma_unit_clause(cs: Seq<Vec<Literal>>, i: int)
+    requires 0 <= i < cs.len(),
+    ensures cs[i]@.len() == 0 ==> unsat(cs), cs[i]@.len() == 1 ==> unit_lit_ok(cs, cs[i]@[0]),
+{
+    assert forall|a: Asg| #[trigger] cnf_holds(cs, a) implies (cs[i]@.len() != 0 && (cs[i]@.len() == 1 ==> lit_holds(cs[i]@[0], a))) by {
+        assert(clause_holds(cs[i]@, a));
+    }
+}
+pub proof fn lemma_push_contains(s: Seq<Literal>, x: Literal)
+    ensures s.push(x).contains(x), forall|y: Literal| s.contains(y) ==> #[trigger] s.push(x).contains(y),
+{
+    assert(s.push(x)[s.len() as int] == x);
+    assert forall|y: Literal| s.contains(y) implies #[trigger] s.push(x).contains(y) by {
+        let i = choose|i: int| 0 <= i < s.len() && s[i] == y; assert(s.push(x)[i] == y);
+    }
+}
+pub proof fn lemma_step_initial(cs: Seq<Vec<Literal>>, m: PartialModel, l: Literal, r: UnitPropResult)
+    requires implied_by(cs, m), unit_lit_ok(cs, l), decide_sound(cs, m, l, r),
+    ensures r is UNSAT ==> unsat(cs), r matches UnitPropResult::PartialSAT(m2) ==> implied_by(cs, m2),
+{
+    match r {
+        UnitPropResult::UNSAT => { assert forall|a: Asg| !#[trigger] cnf_holds(cs, a) by { if cnf_holds(cs, a) { assert(agrees(a, m)); assert(lit_holds(l, a)); } } },
+        UnitPropResult::PartialSAT(m2) => { assert forall|a: Asg| #[trigger] cnf_holds(cs, a) implies agrees(a, m2) by { assert(agrees(a, m)); assert(lit_holds(l, a)); } },
+    }
+}
+
 impl UnitPropagate {
     /// watch lists: one per variable and polarity, holding clause indices
     pub open spec fn inv(&self) -> bool {
@@ -163,6 +193,56 @@ impl UnitPropagate {
         &&& forall|i: int, j: int| 0 <= i < self.watch_list_pos@.len() && 0 <= j < self.watch_list_pos@[i]@.len() ==> (#[trigger] self.watch_list_pos@[i]@[j]) < self.cnf.clauses@.len()
         &&& forall|i: int, j: int| 0 <= i < self.watch_list_neg@.len() && 0 <= j < self.watch_list_neg@[i]@.len() ==> (#[trigger] self.watch_list_neg@[i]@[j]) < self.cnf.clauses@.len()
     }
+
+// R-enumerate / R-for-while: `for (idx, c) in cnf.clauses().iter().enumerate() {` (the body uses `continue`) becomes an indexed
+// while over the same slice; `for i in implied {` iterates the vector by reference and copies each element.
+//%% extract src/repr/unit_prop.rs :: impl UnitPropagate :: fn new
+//%% @ret r
+//%% @attr #[verifier::loop_isolation(false)]
+//%% @rewrite 1 /for _ in 0\.\.cnf\.num_vars\(\) \{/ => for w__k in 0..cnf.num_vars() {
+//%% @rewrite 1 /for \(idx, c\) in cnf\.clauses\(\)\.iter\(\)\.enumerate\(\) \{/ => let mut idx__n: usize = 0; while idx__n < cnf.clauses().len() { let idx = idx__n; let c = &cnf.clauses()[idx]; idx__n += 1;
+//%% @rewrite 1 /for i in implied \{/ => for i__r in it: implied.iter() { let i = *i__r;
+//%% @spec
+        requires cnf.wf(),
+        ensures
+            r is None ==> unsat(cnf.clauses@),
+            r matches Some((up, m)) ==> up.inv() && up.cnf == cnf && m.wf() && implied_by(cnf.clauses@, m),
+            // (a necessary part of "propagation runs to fixpoint") the literal of every unit clause is assigned
+            r matches Some((up, m)) ==> forall|i: int| 0 <= i < cnf.clauses@.len() && (#[trigger] cnf.clauses@[i])@.len() == 1 ==> m.val(cnf.clauses@[i]@[0].lbl) == Some(cnf.clauses@[i]@[0].pol),
+//%% @entry
+        let ghost cs = cnf.clauses@;
+//%% @loop 1 /^for w__k in 0\.\.cnf\.num_vars\(\)$/
+            invariant
+                watch_list_pos@.len() == w__k, watch_list_neg@.len() == w__k,
+                forall|i: int| 0 <= i < w__k ==> (#[trigger] watch_list_pos@[i])@.len() == 0,
+                forall|i: int| 0 <= i < w__k ==> (#[trigger] watch_list_neg@[i])@.len() == 0,
+//%% @loop 2 /^while idx__n < cnf\.clauses\(\)\.len\(\)$/
+            invariant
+                idx__n <= cs.len(),
+                watch_list_pos@.len() == cnf.num_vars, watch_list_neg@.len() == cnf.num_vars,
+                forall|i: int, j: int| 0 <= i < watch_list_pos@.len() && 0 <= j < watch_list_pos@[i]@.len() ==> (#[trigger] watch_list_pos@[i]@[j]) < cs.len(),
+                forall|i: int, j: int| 0 <= i < watch_list_neg@.len() && 0 <= j < watch_list_neg@[i]@.len() ==> (#[trigger] watch_list_neg@[i]@[j]) < cs.len(),
+                forall|k: int| 0 <= k < implied@.len() ==> unit_lit_ok(cs, #[trigger] implied@[k]) && implied@[k].lbl.0 < cnf.num_vars,
+                forall|i: int| 0 <= i < idx__n && (#[trigger] cs[i])@.len() == 1 ==> implied@.contains(cs[i]@[0]),
+            decreases cs.len() - idx__n,
+//%% @loopbody 2
+            proof {
+                assert forall|i: int| 0 <= i < cs.len() implies (#[trigger] cs[i]@.len() == 0 ==> unsat(cs)) && (cs[i]@.len() == 1 ==> unit_lit_ok(cs, cs[i]@[0])) by { lemma_unit_clause(cs, i); }
+                assert forall|x: Literal| #![trigger implied@.push(x)] implied@.push(x).contains(x) && (forall|y: Literal| implied@.contains(y) ==> #[trigger] implied@.push(x).contains(y)) by { lemma_push_contains(implied@, x); }
+            }
+//%% @loop 3 /^for i__r in it: implied\.iter\(\)$/
+            invariant
+                cur.inv(), cur.cnf == cnf, cur_state.wf(), implied_by(cs, cur_state),
+                forall|k: int| 0 <= k < implied@.len() ==> unit_lit_ok(cs, #[trigger] implied@[k]) && implied@[k].lbl.0 < cnf.num_vars,
+                forall|i: int| 0 <= i < cs.len() && (#[trigger] cs[i])@.len() == 1 ==> implied@.contains(cs[i]@[0]),
+                forall|k: int| 0 <= k < it.index@ ==> cur_state.val((#[trigger] implied@[k]).lbl) == Some(implied@[k].pol),
+//%% @loopbody 3
+            proof {
+                let m = cur_state;
+                assert forall|l: Literal, r2: UnitPropResult| implied_by(cs, m) && unit_lit_ok(cs, l) && #[trigger] decide_sound(cs, m, l, r2)
+                    implies (r2 is UNSAT ==> unsat(cs)) && (r2 matches UnitPropResult::PartialSAT(m2) ==> implied_by(cs, m2)) by { lemma_step_initial(cs, m, l, r2); }
+            }
+//%% end
 
 // R-filter: `clause.iter().filter(|x| P)` is replaced by the vector of the references the filter yields (an indexed loop over the
 // same clause, the predicate text P verbatim); on it `.clone().count()` is the length, and `.next().unwrap()` / `.nth(1).unwrap()`
